@@ -573,6 +573,18 @@ func execSeq(in []string) []string {
 
 // execAsmSrc runs one assembled-system case in a child process (the web router is a process global).
 func execAsmSrc(in []string) []string {
+	var f []string
+	for try := 0; try < 6; try++ {
+		f = execAsmSrcOnce(in)
+		if !vh.PortClash(f) { // the web port (bind-note-release) was taken by another process: fresh child
+			break
+		}
+		time.Sleep(time.Duration(50*(try+1)) * time.Millisecond)
+	}
+	return f
+}
+
+func execAsmSrcOnce(in []string) []string {
 	cmd := osexec.Command(os.Args[0], "asmsrcchild")
 	cmd.Stdin = strings.NewReader(in[0] + " " + in[1] + "\n")
 	var out, errb bytes.Buffer
